@@ -558,7 +558,7 @@ def main(argv):
                             {"op": "shard", "kind": "pair", "args": ["-f", spec.decode(), "-d", dl.decode("latin1")], "stdin_hex": hexs(data), "files": where})
     # shard -f: the file a line lands in is hash_fold(seed, cut pieces) mod n -- also for lines with trailing / empty fields
     SHARD_SEED = 47849374332489
-    for spec, d, nsh in ((b"2", 9, 5), (b"1,3", 9, 4), (b"2-", 32, 3), (b"-2", 44, 7), (b"2,4-", 9, 6)):
+    for spec, d, nsh in ((b"2", 9, 5), (b"1,3", 9, 4), (b"2-", 32, 3), (b"-2", 44, 7), (b"2,4-", 9, 6), (b"3,1", 9, 5), (b"2,1", 32, 4), (b"4-,1-2", 9, 3)):
         dl = bytes([d])
         rs = canonical(cut_parse(spec))
         batch = []
